@@ -9,7 +9,7 @@ import struct
 
 from hypothesis import strategies as st
 
-from vf import pins
+from vf import cli, pins
 from vf.core import CaseFailed, EnumPart, HarnessError, HypPart, Oracle, SkipCase, VERIF_DIR, spsdk_frame
 from vf.gen import dbenum
 from vf.gen import keys as K
@@ -21,7 +21,9 @@ LEVEL = "exploration"
 TECHNIQUE = (
     "Hypothesis-generated AHAB configurations (device-database tuples x container/image arrays x key sets x flags x layouts) built through "
     "AHABImage.load_from_config; differential against an independent container walker/verifier (hashlib, own AES-CBC, own RSA-PSS/ECDSA) "
-    "calibrated on stored binaries incl. NXP-signed firmware containers; parse/verify round trip; single-bit tampering of authenticated bytes"
+    "calibrated on stored binaries incl. NXP-signed firmware containers; parse/verify round trip; single-bit tampering of authenticated bytes; "
+    "about one case in six also through the real `nxpimage ahab export / verify / parse` commands (same walker on the exported file, SRK hash "
+    "files, exit codes for valid / tampered / colliding inputs, dumped images)"
 )
 LEVEL_TEXT = (
     "exploration: for every generated configuration whose layout an independent placement model predicts to be collision-free, export must "
@@ -47,7 +49,7 @@ ASSUMPTIONS = [
     "/ 0xC000 / 0xBC00 (v2) with the target's alignment, explicit offsets restart the cursor, containers sit in 1 KiB / 16 KiB slots)",
     "PQC (Dilithium/ML-DSA) and SM2 keys, NXP SRK set, dummy signatures (unsigned placeholders), template images (spl, atf, ...) are out of scope",
 ]
-FLOORS = {"exported": 0.25, "srk:oem": 0.15, "containers>=2": 0.1, "images>=2": 0.15, "encrypted": 0.03, "explicit_offset": 0.05,
+FLOORS = {"cli": 0.03, "cli:ahab_verify": 0.02, "cli:ahab_export_refuse": 0.005, "exported": 0.25, "srk:oem": 0.15, "containers>=2": 0.1, "images>=2": 0.15, "encrypted": 0.03, "explicit_offset": 0.05,
           "refused": 0.015, "problem:image_overlap": 0.004, "problem:container_overflow": 0.002, "rsa": 0.04, "ver:2": 0.025,
           "certificate": 0.004, "tamper:signed": 0.125, "tamper:image": 0.125}
 
@@ -613,6 +615,11 @@ def run_case(case, o: Oracle) -> None:
         # colliding layout: SPSDK must not emit such an image
         o.label("refused")
         o.raises("refuse", "+".join(plan["problems"]), build, (SPSDKError, struct.error))
+        if cli.selected(case, CLI_REFUSE_ONE_IN):
+            # `nxpimage ahab export` on the same configuration: non-zero exit code, no image written
+            cfg_path = _write_yaml(cfg, wd)
+            cli.refused(o, "ahab_export_refuse", ["ahab", "export", "-c", cfg_path], outputs=(os.path.join(wd, cfg["output"]),),
+                        cwd=os.path.join(wd, "cwd"), exc_types=(SPSDKError, struct.error))
         return
     else:
         try:
@@ -687,8 +694,127 @@ def run_case(case, o: Oracle) -> None:
         _resign(case, plan, conts, wd, data, deks, t, o)
 
     # ---- (d) tampering
+    tampered: list = []
     if walked is not None:
-        _tamper(case, tm, walked, data, deks, o)
+        _tamper(case, tm, walked, data, deks, o, tampered)
+
+    # ---- (f) the same configuration file through the real commands: ahab export, verify, parse
+    if walked is not None and v_ok and cli.selected(case, CLI_ONE_IN):
+        _cli_commands(case, t, plan, cfg, wd, data, deks, o, tampered)
+
+
+# ------------------------------------------------------------------ the real commands (`nxpimage ahab export / verify / parse`)
+CLI_ONE_IN = 6  # share of the cases that also go through the commands (pure function of the case)
+CLI_REFUSE_ONE_IN = 2  # ... of the configurations that must be refused (about a tenth of all cases; a refusal costs little)
+
+
+def _write_yaml(cfg: dict, wd: str) -> str:
+    import yaml
+
+    path = os.path.join(wd, "ahab_cli.yaml")
+    with open(path, "w", encoding="utf-8") as f:
+        yaml.safe_dump(cfg, f, sort_keys=False)
+    return path
+
+
+def _is_latest(case) -> bool:
+    return dbenum.load().devices[case["dev"]].latest == case["rev"]
+
+
+def _cli_commands(case, t, plan, cfg: dict, wd: str, data: bytes, deks: dict, o: Oracle, tampered: list) -> None:
+    """`nxpimage ahab export -c <yaml>` writes an image the independent walker accepts like the library-built one (and the SRK
+    hash files it writes hold the hash of the exported table); `ahab verify` exits with 0 on it; `ahab parse` writes the
+    images that were given.  verify / parse have no revision option: they are run for the latest revision only."""
+    conts = case["containers"]
+    cfg_path = _write_yaml(cfg, wd)
+    out = os.path.join(wd, cfg["output"])
+    if os.path.exists(out):
+        os.remove(out)
+    cwd = os.path.join(wd, "cwd")
+    res = cli.run(o, "ahab_export", ["ahab", "export", "-c", cfg_path], cwd=cwd)
+    if res is None:
+        return
+    cdata = cli.read(o, "ahab_export", out)
+    if cdata is None:
+        return
+    co = cli.Scoped(o, "ahab_export")
+    co.check("command", "Success." in res.output, "no_success_message", res.describe())
+    co.eq("twin", "length", len(cdata), len(data))
+    if all(c["srk_set"] == "none" and not c["blob"] for c in conts):
+        # nothing random goes in (no signature, no key blob): byte for byte the library-built image
+        co.check("twin", cdata == data, "bytes", "the command's image differs from the image of the same calls made directly")
+        o.label("cli:bytes_compared")
+    walked = None
+    try:
+        walked = A.walk(cdata, t["max_cnt"], deks)
+    except A.Reject as exc:
+        co.fail("walker", "reject:" + _kind(str(exc)), str(exc))
+    if walked is None:
+        return
+    _compare_walk(case, t, plan, walked, cdata, co)
+    for ci, c in enumerate(conts):
+        if plan["containers"][ci]["images"][0]["core"] == "v2x-1":
+            continue  # the command states that it writes no hash file for a V2X container
+        if c["srk_set"] == "oem" and ci < len(walked) and walked[ci]["srk"] is not None:
+            name = "%s_oem%d_srk0_hash.txt" % (os.path.splitext(cfg["output"])[0], ci)
+            txt = cli.read(o, "ahab_export", os.path.join(wd, name), text=True)
+            if txt is not None:
+                co.eq("srk_hash", "hash_file", txt.strip().upper(), walked[ci]["srk"]["srk_hash"].hex().upper())
+    if not _is_latest(case):
+        o.label("cli:not_latest_revision")
+        return
+    # one -k option serves every container: usable when all key blobs of the image hold the same DEK
+    dek_args = ["-k", next(iter(deks.values())).hex()] if deks and len(set(deks.values())) == 1 else []
+    res = cli.run(o, "ahab_verify", ["ahab", "verify", "-f", case["dev"], "-b", out] + dek_args, cwd=cwd)
+    if res is not None:
+        cli.Scoped(o, "ahab_verify").check("command", "Overall  result:" in res.output, "no_result_line", res.describe())
+    # ... and with a non-zero exit code on the library-built image with one authenticated bit flipped (a position whose flip the
+    # independent walker rejects; fields that parse() does not keep are the known finding of the library path and are left out)
+    for bad, name, pos in tampered:
+        if name not in IGNORED_SPANS:
+            bad_path = os.path.join(wd, "tampered.bin")
+            _write(bad_path, bad)
+            cli.refused(o, "ahab_verify_tampered", ["ahab", "verify", "-f", case["dev"], "-b", bad_path] + dek_args, cwd=cwd, exc_types=(Exception,))
+            break
+    pdir = os.path.join(wd, "parsed_cli")
+    res = cli.run(o, "ahab_parse", ["ahab", "parse", "-f", case["dev"], "-b", out, "-o", pdir] + dek_args, cwd=cwd)
+    if res is None:
+        return
+    cp = cli.Scoped(o, "ahab_parse")
+    if not cp.check("command", "Success." in res.output, "not_parsed", res.describe()):  # the command reports a failure with exit code 0
+        return
+    pcfg = cli.load_yaml(o, "ahab_parse", os.path.join(pdir, "parsed_config.yaml"))
+    if not isinstance(pcfg, dict):
+        return
+    got_conts = [c.get("container", {}) for c in pcfg.get("containers", []) if isinstance(c, dict)]
+    if not cp.eq("config", "container_count", len(got_conts), len(conts)):
+        return
+    for ci, (c, pc, gc) in enumerate(zip(conts, plan["containers"], got_conts)):
+        gi = gc.get("images", [])
+        if not cp.eq("config", "image_count", len(gi), len(c["images"])):
+            continue
+        for ii, (im, pi, g) in enumerate(zip(c["images"], pc["images"], gi)):
+            what = "container %d image %d" % (ci, ii)
+            cp.eq("config", "load_address", _int(g.get("load_address")), im["load"])
+            cp.eq("config", "entry_point", _int(g.get("entry_point")), im["entry"])
+            cp.eq("config", "core_id", g.get("core_id"), pi["core"])
+            cp.eq("config", "image_type", g.get("image_type"), pi["itype"])
+            cp.eq("config", "hash_type", g.get("hash_type"), im["hash"])
+            cp.eq("config", "is_encrypted", g.get("is_encrypted"), pi["enc"])
+            cp.eq("config", "boot_flags", _int(g.get("boot_flags")), im["boot"])
+            if pi["enc"] and not dek_args:
+                continue  # without the key the command can only dump the cipher text
+            got = cli.read(o, "ahab_parse", os.path.join(pdir, str(g.get("image_path"))))
+            if got is not None:
+                want = pi["padded"] + bytes(pi["size"] - len(pi["padded"]))
+                cp.check("files", got == want, "image_bytes", "%s: %d bytes written, %d given (with padding)" % (what, len(got), len(want)))
+
+
+def _int(v):
+    try:
+        return int(str(v).replace("_", ""), 0)
+    except (TypeError, ValueError):
+        return v
 
 
 def _resign(case, plan, conts, wd: str, data: bytes, deks: dict, t, o: Oracle) -> None:
@@ -824,7 +950,7 @@ def _spsdk_reports(case, tm: str, bad: bytes, deks: dict):
         return True, "exc:" + type(exc).__name__
 
 
-def _tamper(case, tm: str, walked: list, data: bytes, deks: dict, o: Oracle) -> None:
+def _tamper(case, tm: str, walked: list, data: bytes, deks: dict, o: Oracle, collect: list) -> None:
     signed = [w for w in walked if w["srk_set"] and w["signature"]]
     images = [(w, im) for w in walked for im in w["images"] if im["size"]]
     for k, t in enumerate(case["tamper"]):
@@ -868,6 +994,7 @@ def _tamper(case, tm: str, walked: list, data: bytes, deks: dict, o: Oracle) -> 
                 raise HarnessError("the reference walker accepts a corrupted image (byte 0x%x, %s)" % (pos, cls))
         except A.Reject:
             pass
+        collect.append((bad, name, pos))
         reported, _how = _spsdk_reports(case, tm, bad, deks)
         if not reported:
             o.label("unreported:" + name)
@@ -912,6 +1039,7 @@ def _combo_case(tier: str, i: int) -> dict:
 
 def parts(ctx):
     _STATE["work"] = ctx.work
+    cli.preload()
     return [
         EnumPart("db_tuples", lambda tier: len(_combos()), _combo_case, run_case),
         HypPart("images", _cases(ctx.quick), run_case, {"quick": 320, "thorough": 20000}),
